@@ -441,11 +441,9 @@ def State.removeAnnIfPresent (s : State) (h : Nat) : Option State :=
 def State.removeAll (s : State) (hs : List Nat) : Option State :=
   hs.foldl (fun acc h => acc.bind (fun st => st.removeAnnIfPresent h)) (some s)
 
-/-- `str::parse::<usize>()`: an optional `+`, then one or more ASCII digits, below 2^64 -/
+/-- the number of a temporary identifier: one or more ASCII digits, below 2^64 (no sign) -/
 def parseUsize (cs : List Char) : Option Nat :=
-  let ds := match cs with
-    | '+' :: rest => rest
-    | _ => cs
+  let ds := cs
   if ds.isEmpty || !ds.all (fun c => '0' ≤ c && c ≤ '9') then none
   else
     let v := ds.foldl (fun acc c => acc * 10 + (c.toNat - '0'.toNat)) 0
